@@ -15,7 +15,7 @@ CHECKS = {
         technique="deterministic simulation: seeded schedule + adversarial client histories, transition-trace monitor",
         ref="DESIGN.md §6 C02"),
     "C03": dict(
-        text="Seeded search over programs with sequential and parallel structure x clients that abort/skip/error/back/cancel/submit/remove in one branch while siblings are open, plus late adversary actions; at every quiescent point the live dump (H1), the stored rows and the event stream are checked: completed composites have only terminal tasks beneath them, process state = root state (live and stored), exactly one start and one terminal event, nothing open and nothing accepted after a non-error ending. Sampling: evidence, not proof.",
+        text="Seeded search over programs with sequential and parallel structure (a third of them with catches on steps and acts, a sixth with a backward `next` jump that visits a stretch of steps several times) x clients that abort/skip/error/back/cancel/submit/remove in one branch while siblings are open, plus late adversary actions; at every quiescent point the live dump (H1), the stored rows and the event stream are checked: completed composites have only terminal tasks beneath them, process state = root state (live and stored), exactly one start and one terminal event, nothing open and nothing accepted after a non-error ending. Sampling: evidence, not proof.",
         note="Trusted: H1 live dump, simulator quiescence. Hierarchy is judged at quiescent points, not at the instant of each write. back/cancel are not combined with generator acts (DESIGN.md §10).",
         technique="deterministic simulation: seeded schedule + client histories, invariants at quiescent points",
         ref="DESIGN.md §6 C03"),
@@ -25,13 +25,13 @@ CHECKS = {
         technique="deterministic simulation: seeded adversarial action matrix with before/after comparison (layer 1) + seeded preemptive schedules of racing client threads at lock points (layer 2)",
         ref="DESIGN.md §6 C05"),
     "C04": dict(
-        text="Differential and metamorphic: generated models of the bounded grammar x valuation x three variants (declared / shuffled / reversed branch order, each under another scheduler policy, clock-tie rate, client mode and deploy path); every run is compared with the reference interpreter RefFlow (which nodes have task instances, their final states, ordering constraints evaluated on the H2 trace) and the variants with each other (outcome independent of declaration order and schedule). Sampling: evidence, not proof.",
-        note="Trusted: RefFlow (written from the statements; `either` where they are open: needs-branch whose needed sibling was skipped, and the else-branch beside it). Worker-thread counts are approximated by task-level interleavings (layer 1). Backward `next` jumps are not generated (DESIGN.md §10).",
+        text="Differential and metamorphic: generated models of the bounded grammar (a quarter of them with a backward `next` jump: a counting step, a jump out of an if-branch guarded by the counter, 2..4 visits) x valuation x three variants (declared / shuffled / reversed branch order, each under another scheduler policy, clock-tie rate, client mode and deploy path); every run is compared with the reference interpreter RefFlow - for loop models RefLoop, which interprets the visits one after another with the counter updated - (which nodes have how many task instances, their final states, ordering constraints evaluated on the H2 trace, for loops inside every visit) and the variants with each other (outcome independent of declaration order and schedule). Sampling: evidence, not proof.",
+        note="Trusted: RefFlow (written from the statements; `either` where they are open: needs-branch whose needed sibling was skipped, and the else-branch beside it). Worker-thread counts are approximated by task-level interleavings (layer 1). Loops are of one family (README idiom: counter step, guarded jump out of a branch back to an earlier top-level step); the counter's code act is the only writer.",
         technique="deterministic simulation: differential against a reference interpreter + metamorphic over branch order and schedules",
         ref="DESIGN.md §6 C04"),
     "C06": dict(
-        text="Seeded search over models with catches on acts and steps (nested, several codes, catch-all, empty, non-matching) x one error source (client error action at a seeded interrupt, throwing script, unknown package) x schedules; the oracle derives the catching task from the model and checks the propagation chain (states, original code and message), exactly-once execution of exactly the first matching catch's steps, completion of the catcher, continuation with its successor and the error/complete events. Sampling: evidence, not proof.",
-        note="Trusted: the harness's own model AST to find the catcher; H2 trace; H1 live dump for error fields. One error source per run.",
+        text="Seeded search over models with catches on acts and steps (nested, several codes, catch-all, empty, non-matching) x one error source (client error action at a seeded interrupt, throwing script, unknown package), in 45% of the client cases followed by a second client error at an interrupt inside the steps of the catch that took the first (those steps often carry a catch of their own) x schedules; the oracle derives the catching task from the model and checks the propagation chain (states, original code and message), exactly-once execution of exactly the first matching catch's steps, completion of the catcher not before its catch steps have closed, continuation with its successor and the error/complete events; for the second error: a task catches only once, the inner steps' own catch still takes it, otherwise it climbs past the used catcher. Sampling: evidence, not proof.",
+        note="Trusted: the harness's own model AST to find the catcher; H2 trace; H1 live dump for error fields. One error source per run, or two in sequence (the second inside the first catch's steps).",
         technique="deterministic simulation: seeded error injection through the client/script/package seam, model-derived oracle",
         ref="DESIGN.md §6 C06"),
     "C09": dict(
@@ -45,23 +45,23 @@ CHECKS = {
         technique="deterministic simulation harness used as a seeded history generator against a reference collection, with close/reopen faults",
         ref="DESIGN.md §6 C10"),
     "C11": dict(
-        text="Seeded search over generated models (control flow, catches, generated acts, set/code acts writing variables of enclosing scopes, env at start and from scripts) x clients using all action kinds x both store backends x schedules: at every quiescent point the live process (hook H1, cache only, never loads) is compared field by field with its process row and task rows (task set, state, prev, data, err, times; process state, err, env). Sampling: evidence, not proof.",
+        text="Seeded search over generated models (control flow, catches, generated acts, set/code acts writing variables of enclosing scopes, env at start and from scripts, timeout rules on interrupts with clock jumps and ticks while they are open) x clients using all action kinds incl. cancel x both store backends x schedules, a quarter of the programs with nodes written without an id: at every quiescent point the live process (hook H1, cache only, never loads) is compared field by field with its process row and task rows (task set, state, prev, data, err, times; process state, err, env). Sampling: evidence, not proof.",
         note="Trusted: hook H1 reads the cache without loading; rows are read from the backing collections directly. Compared only at quiescent points (the statement's scope).",
         technique="deterministic simulation: exact quiescence detection, live-vs-stored image comparison at every quiescent point",
         ref="DESIGN.md §6 C11"),
     "C12": dict(
         category="fault_enumeration",
-        text="Fault enumeration over crash points x seeded programs: run A (no fault) records its quiescent points; runs B_i inject an engine restart on the same store (SQLite file / transplanted in-memory collections) or a cache eviction at quiescent point i - every point in the thorough tier, up to five seeded points and one pair in the quick tier - and must show the same client history (canonical sequential client), the same per-phase message multisets up to ids/tids/timestamps, the same final task outcomes and the same terminal event and outputs as A. Programs and schedules are sampled; within a program the crash points are enumerated.",
+        text="Fault enumeration over crash points x seeded programs (a third of them with steps / branches / acts written without an id, whose generated ids must survive the reload): run A (no fault) records its quiescent points; runs B_i inject an engine restart on the same store (SQLite file / transplanted in-memory collections) or a cache eviction at quiescent point i - every point in the thorough tier, up to five seeded points and one pair in the quick tier - and must show the same client history (canonical sequential client), the same per-phase message multisets up to ids/tids/timestamps, the same final task outcomes and the same terminal event and outputs as A. Programs and schedules are sampled; within a program the crash points are enumerated.",
         note="Trusted: crash = drop every task/timer of the old engine epoch without running it, only the store survives; eviction through the guarded cache hook. Faults at quiescent points only (the statement's scope). An else-branch still `pending` at the end of a truncated history counts as `skipped` (it is decided lazily).",
         technique="deterministic simulation: crash/restart and eviction injected at every quiescent point, differential against the uninterrupted run",
         ref="DESIGN.md §6 C12"),
     "C13": dict(
-        text="Seeded search over multisets of 2..12 (thorough: up to 64) concurrently started processes of 1..3 generated models with overlapping variable names and per-process valuations, cache capacities from 1 to above the process count (capacity below the count forces evictions and reloads in mid-flight), both store backends, seeded cross-process answer orders and schedules, and a second start with a live pid: each process's projection (message multiset up to ids, final task outcomes, terminal event and outputs) must equal the same (model, valuation, client table) run alone with the default cache; pids unique, duplicate start refused, no foreign pid in any message. Sampling: evidence, not proof.",
-        note="Trusted: moka behind the shim (maintenance applied eagerly so that evictions are a deterministic function of the operation sequence). Worker-thread counts are approximated by task-level interleaving (layer 1). Models without run-time generated acts (C12's recorded finding).",
-        technique="deterministic simulation: per-process projection of a loaded multi-process run vs solo runs, capacity-driven eviction faults",
+        text="Two parts. (a) Seeded search over multisets of 2..12 (thorough: up to 64) concurrently started processes of 1..3 generated models with overlapping variable names and per-process valuations, scripts that write the process env along the flow and a last step that reads it, nodes without an id in a third of the cases, cache capacities from 1 to above the process count (capacity below the count forces evictions and reloads in mid-flight), both store backends, seeded cross-process answer orders and schedules, and a second start with a live pid: each process's projection (message multiset up to ids, final task outcomes, terminal event and outputs) must equal the same (model, valuation, client table) run alone with the default cache; pids unique, duplicate start refused, no foreign pid in any message. (b) Threads, layer 2: 1..3 virtual client threads answer every interrupt (complete / skip / abort / error / submit / remove) as soon as its message is delivered while the executor runs as one more virtual thread; the baton moves at intercepted engine lock acquisitions, so client actions land in the middle of the scheduler's work on the same process; judged by the invariants that hold for every interleaving (C02 lifecycle monitor, C08 stream monitor, C03 hierarchy at the final quiescent point, no deadlock on engine locks). Sampling: evidence, not proof.",
+        note="Trusted: moka behind the shim (maintenance applied eagerly so that evictions are a deterministic function of the operation sequence). Part (a) approximates worker-thread counts by task-level interleaving (layer 1) and uses models without run-time generated acts (C12's recorded finding); part (b) preempts at engine lock acquisitions only (hook H3), which guard all shared engine state.",
+        technique="deterministic simulation: per-process projection of a loaded multi-process run vs solo runs with capacity-driven eviction faults (layer 1) + seeded preemptive schedules of client threads against the engine thread at lock points (layer 2)",
         ref="DESIGN.md §6 C13"),
     "C15": dict(
-        text="Seeded search over parent/child(/grandchild) models, child endings (completed, error, aborted, missing model) and interleavings of the child's return with other parent activity: the calling act is open at every quiescent point before the child's terminal event, closed exactly once afterwards with the prescribed state/data/error, the child's inputs equal the call's options, the successor starts once and only after the call is closed, the parent's terminal event is generated after the child's. Sampling: evidence, not proof.",
+        text="Seeded search over parent/child(/grandchild) models, child endings (completed, error by the client, failure of the child by itself - throwing script, missing grandchild model: an error without a code -, aborted, missing model) and interleavings of the child's return with other parent activity: the calling act is open at every quiescent point before the child's terminal event, closed exactly once afterwards with the prescribed state/data/error, the child's inputs equal the call's options, the successor starts once and only after the call is closed, the parent's terminal event is generated after the child's. Sampling: evidence, not proof.",
         note="Trusted: H1 live dumps at quiescent points, id shim for event generation order. Child ending `skipped` is not reachable through client actions and is not generated.",
         technique="deterministic simulation: seeded interleaving of sub-process return and parent activity, trace/dump oracle",
         ref="DESIGN.md §6 C15"),
@@ -71,12 +71,12 @@ CHECKS = {
         technique="deterministic simulation: seeded answer orders/schedules, counting oracle over stream and trace",
         ref="DESIGN.md §6 C16"),
     "C07": dict(
-        text="Differential against RefEnv (a map per declaring scope): 1..3 concurrent processes of a generated straight-line program of writers (set, script $set, script return value, client options with declared / undeclared / __private keys) and readers (message parameter templates, branch conditions, terminal outputs), each process with its own start valuation and client-supplied values, under seeded schedules that interleave the processes; every observed value, the branch taken, the exact key set and values of the terminal outputs, the confinement of undeclared/private keys and of a step-declared name are compared with the model. Sampling: evidence, not proof.",
-        note="Trusted: RefEnv (names declared by the workflow or by one step; reads of undeclared names unconstrained). The cut of options is judged only for acts that declare outputs. Client actions happen at quiescent points; the processes interleave at task granularity.",
+        text="Differential against RefEnv (a map per declaring scope): 1..3 concurrent processes of a generated straight-line program of writers (set, script $set, script return value, client options of complete / submit / skip / remove carrying the declared output, the other workflow variable, an undeclared and a __private key) and readers (message parameter templates - also of names outside the reader's scope chain: the step-scoped name from other steps, the start values of the other processes -, branch conditions, terminal outputs), each process with its own start valuation and client-supplied values, under seeded schedules that interleave the processes; every observed value, the branch taken, the exact key set and values of the terminal outputs, the confinement of undeclared/private keys and of a step-declared name are compared with the model. Sampling: evidence, not proof.",
+        note="Trusted: RefEnv (names declared by the workflow or by one step; a read of a name that no scope in the reader's ancestry holds must yield no value). The cut of options is judged only for acts that declare outputs. Client actions happen at quiescent points; the processes interleave at task granularity.",
         technique="deterministic simulation: differential against a scope/environment reference model, multi-process interleaving",
         ref="DESIGN.md §6 C07"),
     "C17": dict(
-        text="Seeded search over 2..5 interleaved processes of 1..3 generated models (with 0..2 registered start events) ending by completion / error / abort / skip, keep_processes on/off, both store backends, an acknowledging channel (message records exist), late adversary actions and the final removal of a model: after every terminal event and the following quiescence the exact row sets are compared - default: no process/task row of that pid left and every further action refused; keep: all rows remain and are terminal; rows of other pids and all message records untouched; model removal deletes exactly the events with that mid and exactly that model row. Sampling: evidence, not proof.",
+        text="Seeded search over 2..5 interleaved processes of 1..3 generated models (with 0..2 registered start events) ending by completion / error / abort / skip, a third of the models with a workflow-level lifecycle hook act (started while the process is already ending), keep_processes on/off, both store backends, cache capacity 1..2 in a third of the cases (a process may end while the cache does not hold it), an acknowledging channel (message records exist), late adversary actions and the final removal of a model: after every terminal event and the following quiescence the exact row sets are compared - default: no process/task row of that pid left and every further action refused; keep: all rows remain and are terminal; rows of other pids and all message records untouched; model removal deletes exactly the events with that mid and exactly that model row. Sampling: evidence, not proof.",
         note="Trusted: rows read from the backing collections at quiescent points; one client action between two quiescent points (sequential client), so that a row diff is attributable.",
         technique="deterministic simulation: exact quiescence after terminal events, store row-set diff oracle",
         ref="DESIGN.md §6 C17"),
@@ -86,7 +86,7 @@ CHECKS = {
         technique="deterministic simulation: (de)registration faults at task boundaries, per-channel delivery vs an independent glob reference",
         ref="DESIGN.md §6 C18"),
     "C19": dict(
-        text="Seeded search over rule sets (1..3 rules in s/m/h/d on an act, optionally on its step), tick_interval_secs, tick phase, the simulated instant of the client's answer (before/around/after each limit, never) and stalled ticks (forward clock jumps of several periods), on the discrete-event clock (simulated hours to days per run cost milliseconds). RefTimeline per task instance and rule: at most one firing, never before start_time+limit, fired by the quiescent point after the first tick at/after the limit while the task is open, none once the task is terminal, the timed task's state unchanged by a firing. Sampling: evidence, not proof.",
+        text="Seeded search over rule sets (1..3 rules in s/m/h/d on an act - an interrupt or, in a quarter of the cases, a call of a sub-workflow -, optionally on its step), the kind of the answer (complete, or an error that the enclosing step's catch takes, so that the closed act stays beneath a running process), tick_interval_secs, tick phase, the simulated instant of the client's answer (before/around/after each limit, never) and stalled ticks (forward clock jumps of several periods), on the discrete-event clock (simulated hours to days per run cost milliseconds). RefTimeline per task instance and rule: at most one firing, never before start_time+limit, fired by the quiescent point after the first tick at/after the limit while the task is open, none once the task is terminal, the timed task's state unchanged by a firing. Sampling: evidence, not proof.",
         note="Trusted: the timer/clock shims (tokio interval with burst catch-up, chrono now). Millisecond granularity: a tick within 1 ms of a limit is accepted either way. The timed process is kept cached.",
         technique="deterministic simulation: discrete-event clock, seeded tick phase / answer instant / clock-jump faults, timeline reference model",
         ref="DESIGN.md §6 C19"),
